@@ -399,6 +399,12 @@ func (e *Engine) harnessExtra(fn *ssa.Function, name string, args []Value) (Valu
 		e.parseResult = &v
 		e.parseBroken = e.concretize(args[1].(*Term), -1, 8) >= 0
 		return mkStr("vp://keyset"), true
+	case "vpYAMLText": // (node): the document as text - here the node tree itself, read back by the decoder model
+		np, ok := args[0].(PtrVal)
+		if !ok || np.slot == nil {
+			unsupported("vpYAMLText of a nil node")
+		}
+		return YBytes{root: np}, true
 	case "vpCleanup":
 		return nil, true
 	}
